@@ -7,8 +7,9 @@ import json, os, subprocess, sys, time, shutil, hashlib, copy, re
 VERIF = os.path.dirname(os.path.dirname(os.path.abspath(__file__)))
 SIM = os.path.join(VERIF, "sim")
 TARGET = os.path.join(SIM, "target", "release")
-EVID = os.path.join(VERIF, "evidence")
-REPLAYS = os.path.join(VERIF, "replays")
+# seeded-change runs (lib/seedtest.sh) redirect both so that committed evidence only ever comes from the unchanged tree
+EVID = os.environ.get("VERIF_EVIDENCE_DIR") or os.path.join(VERIF, "evidence")
+REPLAYS = os.environ.get("VERIF_REPLAY_DIR") or os.path.join(VERIF, "replays")
 DEFAULT_SEED = 20260924
 
 ENV = dict(os.environ)
